@@ -107,7 +107,7 @@ def _tla_unquote(s):
 
 def run_tlc(ctx, module, cfg, extra_files=(), workers=None, timeout=600, simulate=None,
             depth_first=False, mem=None, tag="@@VEC", files_text=None, check_deadlock=None,
-            count_states=True, xss=None):
+            count_states=True, xss=None, vec_filter=None):
     """Run TLC on spec/<module>.tla with config text or file `cfg` in a scratch copy.
     Returns TLCResult.  Lines `"<tag> json"` printed by the spec are collected in .vecs (decoded)."""
     d = tempfile.mkdtemp(prefix="tlc-", dir=ctx.scratch)
@@ -153,8 +153,12 @@ def run_tlc(ctx, module, cfg, extra_files=(), workers=None, timeout=600, simulat
     res.rc = p.returncode
     out = p.stdout
     keep = []
+    nvec = -1
     for line in out.splitlines():
         if line.startswith('"' + tag + " "):
+            nvec += 1
+            if vec_filter is not None and not vec_filter(nvec):
+                continue
             body = _tla_unquote(line)[len(tag) + 1:]
             try:
                 res.vecs.append(json.loads(body))
@@ -190,8 +194,9 @@ def run_tlc(ctx, module, cfg, extra_files=(), workers=None, timeout=600, simulat
     if count_states:
         ctx.states += res.distinct
         ctx.transitions += res.generated
+    res.nvec_total = nvec + 1
     ctx.tlc_runs.append({"module": module, "cfg": cfgname, "generated": res.generated,
-                         "distinct": res.distinct, "depth": res.depth, "vectors": len(res.vecs),
+                         "distinct": res.distinct, "depth": res.depth, "vectors": len(res.vecs), "vectors_emitted": nvec + 1,
                          "wall_s": round(res.wall, 1), "rc": res.rc, "error": res.error})
     res.dir = d
     return res
